@@ -922,7 +922,7 @@ def run(ctx: Any) -> None:
         k_unsafe_chars(ctx, m)
         k_cookies(ctx, m, ctx.budget(120, 3000))
         # ---- K1 / K2 on the grammar
-        n_urls = ctx.budget(10000, 200000) * (3 if deep and ctx.tier != "thorough" else 1)
+        n_urls = ctx.budget(10000, 200000)
         urls: list[tuple[str, tuple[str, ...]]] = [(u, a) for a in ALLOWLISTS for u in WITNESS_URLS]
         for _ in range(n_urls):
             a = ALLOWLISTS[0] if rng.random() < 0.5 else rng.choice(ALLOWLISTS)
@@ -979,7 +979,7 @@ def run(ctx: Any) -> None:
             if "ok" in res:
                 spec.same_origin({"k": "original_url", "u": u, "prefix": p}, base_json(p, p + "/_oauth/callback", "code=c"), res["ok"], p, "original-url")
         # ---- the real flow
-        n_flow = ctx.budget(350, 8000) * (2 if deep and ctx.tier != "thorough" else 1)
+        n_flow = ctx.budget(350, 8000)
         flows: list[Flow] = []
         for prefix in ("", "/vgi"):
             for allow, secret, idt in ((DEFAULT_ALLOW, "s3cret", False), (ALLOWLISTS[1], None, True)):
